@@ -354,6 +354,60 @@ fn run_case(case: &Value) -> Value {
     o
 }
 
+// sweep: {"id":n, "sweep":{"alphabet":"hex","len":L,"first":"hex"(prefix bytes fixed by the orchestrator),"argv":[...],"per_ms":n}}
+// runs every byte string  first . w  with w over alphabet^(len - |first|) through go(); reports counts and the failing strings.
+fn run_sweep(case: &Value, current: &Arc<Mutex<Option<(Value, u64)>>>, tick: &Arc<AtomicU64>) -> Value {
+    let sw = &case["sweep"];
+    let alphabet = unhex(sw["alphabet"].as_str().unwrap_or(""));
+    let first = unhex(sw["first"].as_str().unwrap_or(""));
+    let len = sw["len"].as_u64().unwrap_or(0) as usize;
+    let per_ms = sw["per_ms"].as_u64().unwrap_or(10000);
+    let argv = sw["argv"].clone();
+    let free = len.saturating_sub(first.len());
+    let mut idx = vec![0usize; free];
+    let (mut n, mut ok, mut err) = (0u64, 0u64, 0u64);
+    let mut bad: Vec<Value> = Vec::new();
+    let mut outbytes = 0u64;
+    loop {
+        let mut w = first.clone();
+        for i in &idx {
+            w.push(alphabet[*i]);
+        }
+        let c = json!({"id": case["id"], "argv": argv, "stdin": hex(&w)});
+        {
+            let mut g = current.lock().unwrap();
+            *g = Some((json!({"id": case["id"], "stdin": hex(&w)}), tick.load(Ordering::SeqCst) + per_ms));
+        }
+        let o = run_case(&c);
+        n += 1;
+        match o["res"].as_str().unwrap_or("") {
+            "ok" => ok += 1,
+            "err" => err += 1,
+            _ => {
+                if bad.len() < 50 {
+                    bad.push(json!({"stdin": hex(&w), "res": o["res"], "msg": o["msg"]}));
+                }
+            }
+        }
+        outbytes += (o["out"].as_str().unwrap_or("").len() / 2) as u64;
+        // odometer
+        let mut k = free;
+        loop {
+            if k == 0 {
+                let mut g = current.lock().unwrap();
+                *g = None;
+                return json!({"id": case["id"], "res": "sweep", "n": n, "ok": ok, "err": err, "bad": bad, "outbytes": outbytes});
+            }
+            k -= 1;
+            idx[k] += 1;
+            if idx[k] < alphabet.len() {
+                break;
+            }
+            idx[k] = 0;
+        }
+    }
+}
+
 fn main() {
     std::panic::set_hook(Box::new(|_| {}));
     let stdin = io::stdin();
@@ -376,7 +430,9 @@ fn main() {
             let g = current.lock().unwrap();
             if let Some((id, deadline)) = &*g {
                 if now > *deadline {
-                    let o = json!({"id": id, "res": "hang", "msg": "watchdog", "out": "", "err": "",
+                    // for a sweep the descriptor is {"id":.., "stdin": the string being run}
+                    let (id, stdin) = if id.is_object() { (id["id"].clone(), id["stdin"].clone()) } else { (id.clone(), Value::Null) };
+                    let o = json!({"id": id, "res": "hang", "msg": "watchdog", "out": "", "err": "", "stdin": stdin,
                         "pulled": 0, "reads": 0, "opened": 0, "eof": false, "capped": false});
                     let so = io::stdout();
                     let mut l = so.lock();
@@ -402,6 +458,13 @@ fn main() {
                 std::process::exit(2);
             }
         };
+        if case["sweep"].is_object() {
+            let o = run_sweep(&case, &current, &tick);
+            let mut l = stdout.lock();
+            let _ = writeln!(l, "{}", o);
+            let _ = l.flush();
+            continue;
+        }
         let tmo = case["timeout_ms"].as_u64().unwrap_or(20000);
         {
             let mut g = current.lock().unwrap();
